@@ -704,6 +704,8 @@ THEOREM_SITES = [
     ("routines/manifold_sculpting.hpp", r"adjust_point_at_index$", r"^data\(\w+, index\)$", "inb_ms_rows", 1),
     ("routines/manifold_sculpting.hpp", r"manifold_sculpting_embed$", r"^data\.(?:bottomRows|topRows)\(.*\)$", "inb_ms_rows", 2),
     ("neighbors/covertree.hpp", r".*", r"^cover_sets\[\w+->scale\]$", "inb_cover_sets_all", 1),
+    # `k = neighbors[0].size()` at the head of every consumer of the neighbour lists (list 0 exists: N >= 2 once validated)
+    (".hpp", r".*", r"^neighbors\[0\]$", "inb_neighbors_outer", 6),
 ]
 
 
@@ -931,6 +933,10 @@ def add_site(fn, sites, stack, kind, obj, meth, args, raw, rel):
             if kind == "subscript" and neighbor_list_site(fn, obj, lp, fn):
                 nl_ok = True
                 continue
+            if kind == "subscript" and tidy(obj) == "neighbors" and re.fullmatch(r"\(?end - begin\)?", normal_form(fn, lp["bound"], rename=False)) \
+                    and "begin" not in fn.written and "end" not in fn.written:
+                nl_ok = "inb_neighbors_outer"        # one list per sample: `neighbors[i]`, i < end - begin
+                continue
             b = normal_form(fn, lp["bound"], rename=False)       # compared BEFORE renaming: same text = same variables
             b = b[1:-1] if b.startswith("(") and match_close(b, 0) == len(b) - 1 else b
             ex = [x[1:-1] if x.startswith("(") and match_close(x, 0) == len(x) - 1 else x for x in extent(fn, obj, which)]
@@ -941,7 +947,7 @@ def add_site(fn, sites, stack, kind, obj, meth, args, raw, rel):
             shared = {}
             triples.append((lo, tidy(alpha(fn, b, shared)), tidy(alpha(fn, hit[0], shared))))
         if ok and nl_ok and not triples:
-            sites.append(Site(rel, fn.qual, kind, tidy(raw), norm, "theorem", why="inb_neighbor_lists"))
+            sites.append(Site(rel, fn.qual, kind, tidy(raw), norm, "theorem", why=nl_ok if isinstance(nl_ok, str) else "inb_neighbor_lists"))
             return
         if ok and not nl_ok:
             cov = "loopvar"
